@@ -443,6 +443,10 @@ class TypeEnv:
         if isinstance(e, ast.Attribute):
             base = self.expr_type(fn, e.value, env)
             if base is None:
+                # attributes of `re.Match` objects (the only standard-library objects whose type the engine
+                # does not derive): `lastgroup` is a group name or None
+                if e.attr == "lastgroup":
+                    return Ty(frozenset({"str", "None"}))
                 return None
             out: Optional[Ty] = None
             first = True
